@@ -24,14 +24,26 @@ from .c14_gen import data_dir, fingerprint, legacy_prints, listing  # noqa: F401
 from .common import Check, sx
 from .evutil import BASE
 
-RULE = ("deterministic corpus (0/1/100/101/250-event buckets across peewee's 100-row chunking, ties and "
+RULE = ("large legacy buckets first (quick: one of 10-22 k events, one of 5-7.5 k, one of 1.1-2.4 k; thorough: 0.5 k .. "
+        "70 k around 1000/4096/5000/8192/10000/16384/32768/50000 and random), dense everywhere -- 1-3 events per "
+        "instant, durations that touch / overlap by 1 us / stop 1 us short of the next instant, zero-length and "
+        "bucket-spanning events, rows written ascending / descending / shuffled / in blocks -- and a wide-span bucket "
+        "(events of hours to weeks across midnight, month and year ends), so that a copy that reads a bucket in "
+        "several pieces (by count, instant or day) cuts beside ties and overlaps wherever it cuts; then the "
+        "deterministic corpus (0/1/100/101/250-event buckets across peewee's 100-row chunking, ties and "
         "zero-length events, unicode / dotted / empty bucket ids, name None/''/given, data None/{}/nested, id holes "
         "from deletes, deleted and re-created buckets, both profiles, other-profile-only, both profiles present, no "
         "legacy, pre-existing sqlite file, custom path, stray and dotless names) then seeded random legacy stores "
         "(0-4 buckets, 0-300 events); every case = real PeeweeStorage writes the legacy file, real "
         "SqliteStorage(testing) constructed in a fresh interpreter, new store compared row by row with the model and "
         "bucket by bucket with the legacy dump, SHA-256 of every legacy file before/after; non-trivial = the migration "
-        "ran and copied at least one event.  Second stream: detect_db_files / check_for_migration on generated listings.")
+        "ran and copied at least one event.  Sessions: several constructions in ONE interpreter (SqliteStorage of "
+        "one profile then the other, in both orders, kept open or closed, after a custom-path store, after a "
+        "PeeweeStorage left open / closed / unread on the same, the other or an unrelated file; 22 fixed + random "
+        "ones): every SqliteStorage step is judged like a construction in a fresh interpreter (model and oracle, "
+        "with the directory listing and legacy fingerprints taken right before / after the step), and a store left "
+        "open is read again at the end of the process.  Every legacy store is written by a process of its own.  "
+        "Second stream: detect_db_files / check_for_migration on generated listings.")
 
 ERR = {"KeyError": 4, "ValueError": 5, "IndexError": 6, "AttributeError": 7, "TypeError": 8, "IntegrityError": 9}
 SEC = 1_000_000
@@ -593,7 +605,7 @@ def expand(case, run):
               "listing_before": res["listing_before"], "listing_after": res["listing_after"]}
         if res.get("final") is not None and any(x["op"] == "sqlite" for x in case["session"][k + 1:]):
             sr["final"] = res["final"]
-            sr["later"] = describe_steps({"session": case["session"][k + 1:]}, len(case["session"]))
+            sr["later"] = describe_steps({"session": case["session"][k + 1:]}, len(case["session"]), "(later in the same process) ")
         out.append((sc, sr))
     return out
 
@@ -604,7 +616,7 @@ def oracle_case(case, run):
             for sc, sr in expand(case, run) for sig, text in oracle(sc, sr)]
 
 
-def describe_steps(case, k):
+def describe_steps(case, k, lead="(earlier in the same process) "):
     out = []
     for s in case["session"][:k]:
         if s["op"] == "sqlite":
@@ -612,7 +624,7 @@ def describe_steps(case, k):
         else:
             out.append(f"PeeweeStorage({'testing=' + str(s['testing']) if not s.get('file') else 'filepath=' + s['file']})"
                        + ("" if s.get("touch") else " unread") + (" closed" if s.get("close") else " left open"))
-    return ("(earlier in the same process) " + ", ".join(out)) if out else "nothing else in the process"
+    return (lead + ", ".join(out)) if out else "nothing else in the process"
 
 
 def oracle(case, run):
@@ -645,11 +657,15 @@ def oracle(case, run):
         # nothing was written through this store object after its construction: what it holds must still be
         # exactly what the constructor left (the later constructions belong to other files)
         fb = run["final"].get("buckets")
-        bad.append(("C14:store-changed-later", f"the store read again at the end of the process differs from what it held when "
+        if fb is None:
+            bad.append(("C14:store-changed-later", f"the store could not be read again at the end of the process "
+                                                   f"({run['final'].get('exc')}) {run.get('later', '')}"))
+        else:
+            bad.append(("C14:store-changed-later", f"the store read again at the end of the process differs from what it held when "
                                                f"its constructor returned: buckets {[k for k, _ in m['buckets']]} -> "
-                                               f"{fb if fb is None else [k for k, _ in fb]}, events "
+                                               f"{[k for k, _ in fb]}, events "
                                                f"{sum(len(v) for _, v in m['events'])} -> "
-                                               f"{None if fb is None else sum(len(v) for _, v in run['final']['events'])} "
+                                               f"{sum(len(v) for _, v in run['final']['events'])} "
                                                f"{run.get('later', '')}"))
     if pre:
         # (a legacy file of this profile that no build step wrote was created empty by an earlier PeeweeStorage)
@@ -917,8 +933,15 @@ def evaluate(ck, top_cases, top_runs, have_driver, record=True):
 
 def shrink_case(case, tmp):
     """greedy: drop ops of the legacy store while the oracle still reports a violation"""
+    import time
+    deadline = time.time() + 75          # best effort: what has been reached by then is reported
+
     def fails(c):
+        if time.time() > deadline:
+            return False
         runs = run_cases([c], tmp, procs=1)
+        for r in runs:
+            shutil.rmtree(r["xdg"], ignore_errors=True)
         return bool(oracle_case(c, runs[0]))
     cur = json.loads(json.dumps(case))
     # large generated buckets first: bisect their size (the first n events do not depend on n)
@@ -927,7 +950,7 @@ def shrink_case(case, tmp):
             if op[0] != "insert_gen":
                 continue
             lo, hi = 0, op[2]["n"]
-            for _ in range(9):
+            for _ in range(8):
                 if hi - lo <= 1:
                     break
                 mid = (lo + hi) // 2
@@ -950,7 +973,7 @@ def shrink_case(case, tmp):
             c = json.loads(json.dumps(cur))
             c["stores"][si]["ops"] = ops
             return fails(c)
-        cur["stores"][si]["ops"] = common.shrink_list(cur["stores"][si]["ops"], still, max_steps=6 if large else 25)
+        cur["stores"][si]["ops"] = common.shrink_list(cur["stores"][si]["ops"], still, max_steps=(3 if case_events(cur) > 5000 else 6) if large else 25)
         for k, op in enumerate(cur["stores"][si]["ops"]):
             if op[0] == "insert_many" and len(op[2]) > 1:
                 def still_ev(evs, si=si, k=k):
@@ -1037,6 +1060,11 @@ def main(argv=None):
         "get_events hides events that end before 1970: C03's concern, not the copy's)",
         "PeeweeStorage.__init__ (create_table(safe=True), auto_migrate) is I/O outside the model: covered by the SHA-256 "
         "oracle on legacy files written by the current PeeweeStorage (schema with datastr) only",
+        "the row-by-row comparison with the extracted model is made for cases of up to 2500 events (quick) / 6500 "
+        "(thorough): the extracted store models sort by insertion and are quadratic; larger buckets are judged by the "
+        "property oracle alone (count in coverage: oracle-only ..)",
+        "the model has no process state: a session is a sequence of independent sqlite_open evaluations, one per "
+        "SqliteStorage construction, each on the listing observed right before it",
         "os.listdir of the data dir is the model's `listing`; the three files sqlite creates before the check "
         "(db, -shm, -wal) are appended by the model (sq_created_files) and compared with the directory afterwards",
     ]
